@@ -349,6 +349,21 @@ func suiteGenesis(e *Env) {
 				} else {
 					e.Stat("genesis.fee_params_empty_bypass")
 				}
+			} else {
+				// an item published while governance had set NO collateral records an empty collateral snapshot; the collateral is
+				// raised again before the export.  The import must keep the empty snapshot (nobody posted anything for this item).
+				auth, _ := c.App.AuthKeeper.AddressCodec().BytesToString(c.App.DaKeeper.GetAuthority())
+				par, _ := c.App.DaKeeper.Params.Get(c.Ctx())
+				free := par
+				free.PublishDataCollateral, free.SubmitInvalidityCollateral = sdk.NewCoins(), sdk.NewCoins()
+				_, err1, p1 := c.Exec(&datypes.MsgUpdateParams{Authority: auth, Params: free})
+				_, err2, p2 := c.Exec(&datypes.MsgPublishData{Sender: c.Accs[5].Addr.String(), MetadataUri: "ipfs://free-of-collateral", ParityShardCount: 1, ShardDoubleHashes: [][]byte{{1}, {2}, {3}}})
+				_, err3, p3 := c.Exec(&datypes.MsgUpdateParams{Authority: auth, Params: par})
+				if err1 != nil || err2 != nil || err3 != nil || p1 != nil || p2 != nil || p3 != nil {
+					e.Note("free item: %v %v %v %v %v %v", err1, err2, err3, p1, p2, p3)
+				} else {
+					e.Stat("genesis.da_item_without_collateral")
+				}
 			}
 		}
 		before := dumpStores(a, rows)
